@@ -50,7 +50,7 @@ def _swap_in_packages(draw, ast, table_asts):
 
 
 @st.composite
-def node_expression(draw, table_asts=None, max_parts=3, size=4, soll_bias=False, prefix_ok=True):
+def node_expression(draw, table_asts=None, max_parts=3, size=4, soll_bias=False, prefix_ok=True, fc_dense=False):
     """a valid AHB expression of a C09 form over the small key pools"""
     words = gen.MODAL_WORDS + (["S", "Soll", "soll"] * 2 if soll_bias else [])
     form = draw(st.sampled_from(range(12)))
@@ -68,7 +68,7 @@ def node_expression(draw, table_asts=None, max_parts=3, size=4, soll_bias=False,
     for indicator, has_cond in shape:
         expanded, cond = None, None
         if has_cond:
-            ast = draw(gen.g_dom(max_atoms=size, mode="valid", pools=POOLS))
+            ast = draw(gen.g_dom(max_atoms=size, mode="valid", pools=POOLS, fc_dense=fc_dense))
             written, expanded = _swap_in_packages(draw, ast, table_asts or {})
             cond = gen.render(draw, written, redundant=False, spaces=draw(st.booleans()), top=False)
         parts.append([indicator, expanded])
@@ -90,7 +90,7 @@ def package_table(draw):
 def g_tree(draw, max_nodes=40, max_depth=2, soll_bias=False, min_freetext=0, expr=None):
     """deep AHB: 1-3 root groups, nested groups, segments, free-text / value-pool data elements"""
     table, table_asts = draw(package_table())
-    expression = expr or (lambda: node_expression(table_asts, soll_bias=soll_bias))
+    expression = (lambda: expr(table_asts)) if expr else (lambda: node_expression(table_asts, soll_bias=soll_bias))
     counter = [0]
     budget = [max_nodes]
 
